@@ -47,7 +47,13 @@ Inductive fs_op :=
 | WriteIfAbsent (p : path) (t : N)      (* if not p.exists(): write *)
 | Remove (p : path)                     (* os.remove / source of os.rename *)
 | Mkdirs (p : path)                     (* os.makedirs(p, exist_ok=True) / Path.mkdir(parents=True, exist_ok=True) *)
-| Rmtree (p : path).                    (* shutil.rmtree(p) when p exists *)
+| Rmtree (p : path)                     (* shutil.rmtree(p) when p exists *)
+| Stash (p : path)                      (* saved = p.read_bytes() if p.exists() else None *)
+| Unstash (p : path).                   (* if saved is not None: p.write_bytes(saved) *)
+
+(* the Python local variable that carries the saved bytes: a slot that is no directory entry
+   (the empty path lies below no non-empty root) *)
+Definition mem_slot : path := [].
 
 Definition mkdir1 (s : fs) (q : path) : fs := if exists_b s q then s else s ++ [(q, Dir)].
 Definition apply_op (s : fs) (op : fs_op) : fs :=
@@ -57,6 +63,16 @@ Definition apply_op (s : fs) (op : fs_op) : fs :=
   | Remove p => filter (fun kv => negb (path_eqb (fst kv) p)) s
   | Mkdirs p => fold_left mkdir1 (prefixes p) s
   | Rmtree p => filter (fun kv => negb (under p (fst kv))) s
+  | Stash p =>
+      match lookup p s with
+      | Some e => set s mem_slot e
+      | None => filter (fun kv => negb (path_eqb (fst kv) mem_slot)) s
+      end
+  | Unstash p =>
+      match lookup mem_slot s with
+      | Some e => set (filter (fun kv => negb (path_eqb (fst kv) mem_slot)) s) p e
+      | None => s
+      end
   end.
 
 (* what the audit hook sees (directory creation is compared through the final tree instead) *)
@@ -68,6 +84,8 @@ Definition op_events (s : fs) (op : fs_op) : list (kind * path) :=
   | Remove p => [(D, p)]
   | Mkdirs _ => []
   | Rmtree p => if exists_b s p then [(D, p)] else []
+  | Stash _ => []
+  | Unstash p => if exists_b s mem_slot then [(W, p)] else []
   end.
 (* every path created, rewritten or removed by the operation *)
 Definition op_touched (s : fs) (op : fs_op) : list path :=
@@ -77,6 +95,8 @@ Definition op_touched (s : fs) (op : fs_op) : list path :=
   | Remove p => [p]
   | Mkdirs p => filter (fun q => negb (exists_b s q)) (prefixes p)
   | Rmtree p => map fst (filter (fun kv => under p (fst kv)) s)
+  | Stash _ => []
+  | Unstash p => if exists_b s mem_slot then [p] else []
   end.
 
 Definition rebase (b : path) (op : fs_op) : fs_op :=
@@ -86,6 +106,8 @@ Definition rebase (b : path) (op : fs_op) : fs_op :=
   | Remove p => Remove (b ++ p)
   | Mkdirs p => Mkdirs (b ++ p)
   | Rmtree p => Rmtree (b ++ p)
+  | Stash p => Stash (b ++ p)
+  | Unstash p => Unstash (b ++ p)
   end.
 
 (* ---------- configuration of one generate call ---------- *)
@@ -159,8 +181,11 @@ Definition rel_effects (c : config) (diff : bool) (st : stage) : list fs_op :=
   | Load | Parse | Diff | Final | Other | Post => []
   | Setup =>
       if diff then [Mkdirs []; Mkdirs o; Mkdirs k]
-      else [Rmtree o; Mkdirs (removelast o); Mkdirs o]
+      else (* the registry of a core INSIDE the output directory is read before the clean-up and written back *)
+           (if under o k && negb (path_eqb o k) then [Stash (k ++ [s_registry])] else [])
+           ++ [Rmtree o; Mkdirs (removelast o); Mkdirs o]
            ++ (if path_eqb k o then [] else [Mkdirs (removelast k); Mkdirs k])
+           ++ (if under o k && negb (path_eqb o k) then [Unstash (k ++ [s_registry])] else [])
            ++ init_chain o
            ++ (if core_str_inside_out c then [] else init_chain k)
   | Exceptions =>
@@ -300,7 +325,8 @@ Definition io_cut (name : str) (s : fs) (op : fs_op) : option (list fs_op) :=
       | Some q => Some [Mkdirs (removelast q)]
       | None => None
       end
-  | Remove _ | Rmtree _ => None
+  | Unstash p => if exists_b s mem_slot && base_matches name p then Some [] else None
+  | Remove _ | Rmtree _ | Stash _ => None
   end.
 (* (ModelsEmitter._generate_model_file logs the exception and re-raises it.) *)
 Record io_result := { io_ops : list (stage * fs_op); io_hit : option stage }.
@@ -330,6 +356,18 @@ Definition generate_io (c : config) (name : str) (s : fs) : fs * outcome_io :=
 (* some operation was refused by the OS during the run *)
 Definition io_refused (c : config) (name : str) (s : fs) : bool :=
   match io_hit (io_run c name s) with Some _ => true | None => false end.
+
+(* ---------- the command line entry (cli.py main) ---------- *)
+(* flags given on the command line; None = flag absent.  An omitted --core-package becomes
+   <output-package>.core BEFORE generate is called (so generate always sees an explicit core package). *)
+Record cli_args := { a_out : list str; a_core : option (list str); a_force : option bool; a_no_postprocess : option bool }.
+Definition cli_config (c : config) (a : cli_args) : config :=
+  {| root := root c; tmp := tmp c; cwd := cwd c;
+     out_pkg := a_out a;
+     core_pkg := Some (match a_core a with Some k => k | None => a_out a ++ [s_core] end);
+     force := match a_force a with Some b => b | None => cli_force_default end;
+     post := negb (match a_no_postprocess a with Some b => b | None => cli_no_postprocess_default end);
+     tags := tags c; models := models c |}.
 
 (* ---------- the property ---------- *)
 Definition restrict_root (c : config) (s : fs) : fs := filter (fun kv => under (root c) (fst kv)) s.
